@@ -180,7 +180,12 @@ def strategy_(draw, tier):
             ann.append(["obj_label", vi, "vdata label" if vi == 0 else "label of vdata number %d" % vi])
     if not objs:
         objs.append(draw(vd_st(0, nsess)))
-    return {"nsess": nsess, "ndds": draw(st.sampled_from([0, 0, 1, 4, 40])), "cache": draw(st.booleans()),
+    tail = None
+    if draw(st.integers(0, 3)) == 0:
+        n_ = draw(st.integers(2, 300))
+        tail = [n_, draw(st.integers(1, n_ - 1))]
+    return {"tail_reserve": tail,
+            "nsess": nsess, "ndds": draw(st.sampled_from([0, 0, 1, 4, 40])), "cache": draw(st.booleans()),
             "gattr": draw(st.booleans()),
             "sd_first": draw(st.booleans()), "objs": objs, "ann": ann,
             "q": [[draw(st.integers(0, 3)), draw(st.sampled_from([1, 1, 2, 3, 5, 64]))] for _ in range(4)]}
@@ -284,7 +289,7 @@ def build_sessions(case, d, model):
                   (o["sess"] == s or any(w[1] == s for w in o.get("writes", [])) or
                    any(c[1] == s for c in o.get("chunks", [])))]
             anns = case["ann"] if s == case["nsess"] - 1 else []
-            if not hs and not anns and not first:
+            if not hs and not anns and not first and not (case.get("tail_reserve") and s == case["nsess"] - 1):
                 return
             p.call("i", "Hopen", "f.hdf", 3 if model["_created"] else 4, case["ndds"], bind="f")
             model["_created"] = True
@@ -454,6 +459,15 @@ def build_sessions(case, d, model):
                     if a[0] != "obj_label":
                         model.setdefault("_fileann", []).append((a[0], txt.encode()))
                 p.call("i", "ANend", V("an"))
+            tr = case.get("tail_reserve")
+            if tr and s == case["nsess"] - 1:
+                # the last thing stored by this session: an element whose space is reserved (Hstartwrite with a
+                # length) but only partly written, so that the end of the file has to be extended at close
+                p.call("i", "Hstartwrite", V("f"), 8900, 1, tr[0], bind="tr")
+                data = bytes((7 * i_ + 3) & 0xff for i_ in range(tr[1]))
+                p.call("i", "Hwrite", V("tr"), tr[1], data)
+                p.call("i", "Hendaccess", V("tr"))
+                model["_tail"] = (tr[0], data)
             p.call("i", "Vfinish", V("f"))
             p.call("i", "Hclose", V("f"))
 
@@ -712,6 +726,15 @@ def check(case, d, labels):
         ind_ann = R.annotations()
     except (h4read.StructureError, struct.error) as e:
         raise Fail("the independent reader cannot recover the logical objects: %s" % e, program=prog)
+    if model.get("_tail"):
+        n_, data_ = model["_tail"]
+        tdd = R.f.find(8900, 1)
+        if tdd is None or tdd.len != n_ or tdd.off < 0 or tdd.off + tdd.len > len(R.f.data) or \
+                bytes(R.f.data[tdd.off:tdd.off + len(data_)]) != data_:
+            raise Fail("the partly written reserved element at the end of the file is not stored as described",
+                       descriptor=None if tdd is None else [tdd.off, tdd.len], file_size=len(R.f.data),
+                       reserved=n_, written=len(data_), program=prog)
+        labels.add("reserved_tail")
     for what, o, ln in plan:
         if what == "sds":
             m = model[o["name"]]
